@@ -57,6 +57,12 @@ static void *build_%(n)s(int variant, size_t *size)
     case 1: if (!%(n)s_create_as_typed_root_with_size(B, 7)) return 0; break;
     case 2: if (%(n)s_start_as_typed_root(B) || %(n)s_x_add(B, 7) || !%(n)s_end_as_typed_root(B)) return 0; break;
     case 3: if (%(n)s_start_as_typed_root_with_size(B) || %(n)s_x_add(B, 7) || !%(n)s_end_as_typed_root(B)) return 0; break;
+    case 4: case 5: {
+        void *src; size_t ssize; if (!%(n)s_create_as_root(B, 7)) return 0;
+        src = flatcc_builder_finalize_aligned_buffer(B, &ssize); if (!src) return 0;
+        flatcc_builder_reset(B);
+        if (variant == 4 ? !%(n)s_clone_as_typed_root(B, %(n)s_as_root_with_identifier(src, 0)) : !%(n)s_clone_as_typed_root_with_size(B, %(n)s_as_root_with_identifier(src, 0))) { flatcc_builder_aligned_free(src); return 0; }
+        flatcc_builder_aligned_free(src); } break;
     }
     return flatcc_builder_finalize_aligned_buffer(B, size);
 }
@@ -72,6 +78,12 @@ static void *build_%(n)s(int variant, size_t *size)
     case 1: if (!%(n)s_create_as_typed_root_with_size(B, 7)) return 0; break;
     case 2: if (!(p = %(n)s_start_as_typed_root(B))) return 0; p->x = 7; if (!%(n)s_end_as_typed_root(B)) return 0; break;
     case 3: if (!(p = %(n)s_start_as_typed_root_with_size(B))) return 0; p->x = 7; if (!%(n)s_end_as_typed_root(B)) return 0; break;
+    case 4: case 5: {
+        void *src; size_t ssize; if (!%(n)s_create_as_root(B, 7)) return 0;
+        src = flatcc_builder_finalize_aligned_buffer(B, &ssize); if (!src) return 0;
+        flatcc_builder_reset(B);
+        if (variant == 4 ? !%(n)s_clone_as_typed_root(B, %(n)s_as_root_with_identifier(src, 0)) : !%(n)s_clone_as_typed_root_with_size(B, %(n)s_as_root_with_identifier(src, 0))) { flatcc_builder_aligned_free(src); return 0; }
+        flatcc_builder_aligned_free(src); } break;
     }
     return flatcc_builder_finalize_aligned_buffer(B, size);
 }
@@ -134,7 +146,7 @@ static void *nested_%(n)s(int variant, size_t *size)
 ''' % d)
     out.append('int main(void)\n{\n    void *buf; size_t size; int v; P_table_t p; const uint8_t *nb;\n    flatcc_builder_init(B);\n')
     for i, (n, kind, h) in enumerate(types):
-        out.append('    for (v = 0; v < 4; ++v) {\n        static const char *vn[] = { "create", "create_with_size", "start_end", "start_end_with_size" };\n'
+        out.append('    for (v = 0; v < 6; ++v) {\n        static const char *vn[] = { "create", "create_with_size", "start_end", "start_end_with_size", "clone", "clone_with_size" };\n'
                    '        int ws = v & 1;\n        buf = build_%s(v, &size);\n        if (!buf) { R("%s", vn[v], "build", 0, 1); continue; }\n'
                    '        R("%s", vn[v], "stored_identifier_is_type_hash", rd32((uint8_t *)buf + (ws ? 8 : 4)) == (uint32_t)%s_type_hash, 1);\n' % (n, n, n, n))
         for m, mkind, mh in types:
